@@ -32,6 +32,14 @@ func (api *API) mapEncode(ctx context.Context, value reflect.Value, ts TypeSetti
 	}
 
 	if serializable, ok := valueI.(SerializableJSON); ok {
+		// the object is held in an interface: its validator is registered for its own type, and MapDecode
+		// validates the object it builds for the interface - so MapEncode has to validate it as well
+		if opts.validation && valueType.Kind() == reflect.Interface {
+			elemValue := value.Elem()
+			if err := api.callSyntacticValidator(ctx, elemValue, elemValue.Type()); err != nil {
+				return nil, ierrors.Wrap(err, "pre-serialization validation failed")
+			}
+		}
 		ele, err = serializable.EncodeJSON()
 		if err != nil {
 			return nil, ierrors.Wrap(err, "object failed to serialize itself")
